@@ -27,7 +27,13 @@ func genC19(cs *CaseSet, rng *Rng, tier string, dir string) {
 	}
 	// ---- message board histories (direct handler calls on the real store) ----
 	for h := 0; h < nHist; h++ {
-		init := dataBytesNoLF(rng, rng.Pick(0, 1, 40, 700, 9000))
+		initLen := rng.Pick(0, 1, 40, 700, 9000)
+		// boards near the 64 KiB field limit (beyond the 32 KiB copy buffers): one history in the quick tier, one in
+		// ten in the thorough tier (the model folds the whole text at every step, which dominates the run time)
+		if h == 1 || (tier == "thorough" && h%10 == 3) {
+			initLen = rng.Pick(33000, 58000)
+		}
+		init := dataBytesNoLF(rng, initLen)
 		env := NewEnv(fmt.Sprintf("%s-%d", dir, h), EnvOpts{Board: string(init)})
 		env.StartDrain()
 		nUsers := 2 + rng.Intn(4)
